@@ -56,7 +56,7 @@ pub fn drive(base: &Xstate, src: &str, mode: usize, recording: bool, with_input:
     })
 }
 
-fn compare(src: &str, with_input: bool, outs: &[(String, Outcome)], rep: &Reporter, local: &mut BTreeMap<String, u64>) {
+fn compare(src: &str, start: &str, with_input: bool, outs: &[(String, Outcome)], rep: &Reporter, local: &mut BTreeMap<String, u64>) {
     let (n0, o0) = &outs[0];
     bump(local, &format!("result:{}", o0.kind.split('(').next().unwrap_or("")));
     let limit_hit = o0.kind == limit_kinds().0;
@@ -84,6 +84,7 @@ fn compare(src: &str, with_input: bool, outs: &[(String, Outcome)], rep: &Report
             rep.report_w(&key, src.len() as u64, || {
                 jo(vec![
                     ("kind", js("drive-modes")),
+                    ("interpreter_before", js(if start.is_empty() { "fresh (Xstate::boot)" } else { start })),
                     ("source", js(src)),
                     ("binary_input", J::B(with_input)),
                     ("insn_limit", ji(LIMIT)),
@@ -138,7 +139,7 @@ pub fn run(cfg: &Cfg) -> i32 {
                                 if outs[0].1.kind == "Ok" && !outs[0].1.stack.is_empty() {
                                     nontriv.fetch_add(1, Ordering::Relaxed);
                                 }
-                                compare(&src, false, &outs, &rep, &mut local)
+                                compare(&src, "", false, &outs, &rep, &mut local)
                             }
                             Err(p) => rep.report_w("panic", src.len() as u64, || jo(vec![("source", js(src.clone())), ("panic", js(p))])),
                         }
@@ -160,13 +161,58 @@ pub fn run(cfg: &Cfg) -> i32 {
                     if outs[0].1.kind == "Ok" {
                         nontriv.fetch_add(1, Ordering::Relaxed);
                     }
-                    compare(src, true, &outs, &rep, &mut local)
+                    compare(src, "", true, &outs, &rep, &mut local)
                 }
                 Err(p) => rep.report_w("panic", src.len() as u64, || jo(vec![("source", js(src.clone())), ("panic", js(p))])),
             }
         }
         classes.merge(&local);
         corp.push(jo(vec![("corpus", js("templates (with binary input)")), ("programs", ji(tpl.len()))]));
+    }
+    // every word of the dictionary as a one-word program (and after `over over`), from idle interpreters that
+    // are not fresh (values left on the stack, variables defined) and under stack limits with 0 / 1 / 2
+    // free places: a word that is refused, or that prints what it sees of the stack, must do so alike
+    // in all six runs
+    {
+        const EXTERNAL: [&str; 9] = ["random", "random-bits", "read-all", "write-all", "exec-piped", "include", "require", "exit", "bye"];
+        let words: Vec<String> = boot().word_list().iter().map(|s| s.to_string()).filter(|w| !EXTERNAL.contains(&w.as_str())).collect();
+        let starts: [&str; 4] = ["", "10 20 30", "[ 1 2 ] \"s\" 5 7 var cv", "1.5 nil |ff| { 1 \"k\" }"];
+        let before = nprog.load(Ordering::Relaxed);
+        par_run(cfg.threads, words.len(), 4, |_t, pull| {
+            let mut local = BTreeMap::new();
+            let mut bases: Vec<(String, Xstate)> = vec![];
+            for st in starts {
+                for headroom in [None, Some(0usize), Some(1), Some(2)] {
+                    let mut xs = boot();
+                    xs.eval(st).unwrap();
+                    if let Some(h) = headroom {
+                        let d = xs.data_depth();
+                        xs.set_stack_limit(Some(d + h)).unwrap();
+                    }
+                    bases.push((format!("after `{}`, stack limit {}", st, headroom.map(|h| format!("= depth + {}", h)).unwrap_or("none".into())), xs));
+                }
+            }
+            while let Some(r) = pull() {
+                for wi in r {
+                    for prog in [words[wi].clone(), format!("over over {}", words[wi])] {
+                        for (bname, base) in &bases {
+                            nprog.fetch_add(1, Ordering::Relaxed);
+                            match six(base, &prog, true) {
+                                Ok(outs) => {
+                                    if outs[0].1.kind == "Ok" {
+                                        nontriv.fetch_add(1, Ordering::Relaxed);
+                                    }
+                                    compare(&prog, bname, true, &outs, &rep, &mut local)
+                                }
+                                Err(p) => rep.report_w("panic", prog.len() as u64, || jo(vec![("source", js(prog.clone())), ("start", js(bname.clone())), ("panic", js(p))])),
+                            }
+                        }
+                    }
+                }
+            }
+            classes.merge(&local);
+        });
+        corp.push(jo(vec![("corpus", js("every dictionary word, alone and after `over over`, from 4 idle start states x 4 stack-limit settings")), ("words", ji(words.len())), ("programs", ji(nprog.load(Ordering::Relaxed) - before))]));
     }
     ev.evaluations = nprog.load(Ordering::Relaxed) * 6;
     ev.states = nprog.load(Ordering::Relaxed);
